@@ -198,6 +198,7 @@ func IsLocal(o types.Object) bool {
 type normalizer struct {
 	f     *Fn
 	depth int
+	deps  *[]*types.Var // locals expanded through their unique reaching definition
 }
 
 // Norm prints e in normal form; at is the program point of the use (nil: no
@@ -271,6 +272,9 @@ func (n *normalizer) ident(id *ast.Ident, at *Point) string {
 		if at != nil && n.depth < 6 {
 			if d := f.Graph().UniqueDef(o, *at); d != nil {
 				if s, ok := n.defExpr(d); ok {
+					if n.deps != nil && d.Kind != DefParam && d.Kind != DefTypeSwitch {
+						*n.deps = append(*n.deps, o)
+					}
 					return s
 				}
 			}
